@@ -569,6 +569,68 @@ def structure_hash(system):
     return core.stable_hash(json.dumps([d["gates"], [(l["name"], l["inputs"]) for l in d["lookups"]], sorted(map(tuple, d["copies"])), d["fixed"]], sort_keys=True))
 
 
+def complete_obligation(run, family, ent, oid, engine="C"):
+    """Solver-decided completeness (vf/ccomplete.py): for ALL (I, O) with Spec(I, O) (and the caller-side
+    precondition) the emitted system is satisfiable, the witness being Skolem terms read off the system.
+    Registered only when decided: unsat -> HOLDS; a sat candidate whose inputs the real chip rejects ->
+    VIOLATION (replayed honest run); everything else (not triangular, unknown, candidate accepted by the
+    real chip = Skolem strategy too weak) is counted in run.extra['completeness'] and stays covered by the
+    honest-run sampling only."""
+    from . import ccomplete
+    stats = run.extra.setdefault("completeness", dict(decided=0, violated=0, not_triangular=0, undecided=0, undecided_shapes=[]))
+    tmo = 8 if core.tier() == "quick" else 60
+    t0 = time.time()
+    try:
+        system = extract(family, ent["op"], ent["params"], ent["ins"], ent["k"])
+        st, info = ccomplete.decide_complete(system, ent["spec"], timeout=tmo, pre=ent.get("pre_smt"))
+    except ccomplete.NotTriangular:
+        stats["not_triangular"] += 1
+        return
+    except Exception as ex:  # noqa
+        stats["undecided"] += 1
+        stats["undecided_shapes"].append(f"{oid}: {ex!r}"[:160])
+        return
+    def mk():
+        ob3 = core.Ob(oid + ":complete", engine, "for every (inputs, outputs) satisfying the specification the emitted constraints are satisfiable "
+                      "(existential witness given by Skolem terms derived from the constraint system; products uninterpreted with field lemmas)",
+                      functions=ent.get("functions") or [f"{family}::{ent['op']}"], bound=f"k={ent['k']} params={pstr(ent['params'])}",
+                      key=f"{family}/{ent['op']}:complete")
+        ob3.queries = info.get("queries", 1)
+        ob3.vacuity = True
+        run.add(ob3)
+        return ob3
+    if st == "unsat":
+        stats["decided"] += 1
+        mk().set(HOLDS, f"free bits {info['free_bits']}", solver=info.get("solver"), solver_s=time.time() - t0)
+        return
+    if st == "sat":
+        names = [a for a in info["Iat"] if not isinstance(a, int)]
+        ins_model = [info["model"].get(a, 0) if not isinstance(a, int) else a for a in info["Iat"]]
+        try:
+            s3 = extract(family, ent["op"], ent["params"], ins_model, ent["k"])
+            if not s3.d["honest_verify"]:
+                stats["violated"] += 1
+                ob3 = mk()
+                ob3.key = f"{family}/{ent['op']}:honest-rejected"
+                path = run.write_replay(ob3, dict(kind="honest-rejected", cx=cx_args(family, ent["op"], ent["params"], ins_model, ent["k"])))
+                ob3.set(VIOLATION, f"real MockProver rejects the honest witness of {ent['op']} {pstr(ent['params'])} on the admissible inputs {ins_model} found by the completeness query", replay=path)
+                run.log(f"{ob3.status:12s} {ob3.id} {ob3.detail[:160]}")
+                return
+        except ExtractPanic as ex:
+            stats["violated"] += 1
+            ob3 = mk()
+            ob3.key = f"{family}/{ent['op']}:honest-panics"
+            ob3.set(VIOLATION, f"the real synthesis/witness generation panics on the admissible inputs {ins_model} found by the completeness query: {ex}",
+                    replay=run.write_replay(ob3, dict(kind="honest-panics", cx=cx_args(family, ent["op"], ent["params"], ins_model, ent["k"]))))
+            run.log(f"{ob3.status:12s} {ob3.id} {ob3.detail[:160]}")
+            return
+        except ExtractError:
+            pass
+    stats["undecided"] += 1
+    if len(stats["undecided_shapes"]) < 60:
+        stats["undecided_shapes"].append(f"{oid}: {st}")
+
+
 def run_family(run, family, entries, timeout=60, workers=8, only=None, engine="C"):
     """One obligation per entry: soundness `Sys => Spec` for all assignments; plus, per entry, the
     alternative admissible inputs are pushed through the real chip (honest witness must verify, emitted
@@ -671,6 +733,8 @@ def run_family(run, family, entries, timeout=60, workers=8, only=None, engine="C
             except ExtractError as ex:
                 ob.set(INCONCLUSIVE, f"boundary input extraction failed: {ex}")
         run.log(f"{ob.status:12s} {oid} {ob.solver or ''} {ob.solver_s:.1f}s {ob.detail[:160]}")
+        if ob.status == HOLDS and ent.get("complete") and not (only and only not in oid):
+            complete_obligation(run, family, ent, oid, engine)
         if not (only and only not in oid):
             ob2 = core.Ob(oid + ":keygen", engine, "the verifying key generated by the real keygen_vk commits to the same copy constraints and fixed columns as the development-time checker sees",
                           functions=["midnight_proofs::plonk::keygen_vk", "permutation::keygen::Assembly::copy", "dev::MockProver::copy"],
